@@ -216,9 +216,28 @@ func checkC14(c *CaseC14, fl *Fails) {
 		fl.Add("error", "%s: neighbourhood: %v", desc, err)
 		return
 	}
+	// the search box, from the reference model (modular shifts of the line's voxels), and the library's own
+	// neighbourhood function on the same arguments: they must agree (C08), and every added ID must lie inside
 	boxSet := map[string]struct{}{}
+	for _, id := range line {
+		b, perr := ref.ParseExt(id)
+		if perr != nil {
+			fl.Add("format", "%s: line id: %v", desc, perr)
+			return
+		}
+		for dx := -hMax; dx <= hMax; dx++ {
+			for dy := -hMax; dy <= hMax; dy++ {
+				for dv := -vMax; dv <= vMax; dv++ {
+					boxSet[ref.Shift(b, dx, dy, dv).Ext()] = struct{}{}
+				}
+			}
+		}
+	}
 	for _, id := range box {
-		boxSet[id] = struct{}{}
+		if _, ok := boxSet[id]; !ok {
+			fl.Add("search-box-differs", "%s: GetNspatialIdsAroundVoxcels(line, %d, %d) contains %s, which is not a modular shift of a line voxel", desc, hMax, vMax, id)
+			break
+		}
 	}
 	skippedSet := map[string]struct{}{}
 	for _, id := range skipped {
@@ -239,6 +258,9 @@ func checkC14(c *CaseC14, fl *Fails) {
 			}
 			if b.H != c.H || b.V != c.V {
 				fl.Add("zoom-field", "%s: %s result %s is not at the requested zooms", desc, name, id)
+			}
+			if n := int64(1) << uint(c.H); b.X < 0 || b.X >= n || b.Y < 0 || b.Y >= n {
+				fl.Add("not-a-voxel", "%s: %s result %s has a horizontal index outside 0..2^%d-1", desc, name, id, c.H)
 			}
 			if _, onLine := lineSet[id]; onLine {
 				continue
